@@ -135,6 +135,10 @@ func (f *frame) havocKeys(w map[string]bool) {
 		f.havocAllHeap()
 		return
 	}
+	if len(w) == 0 {
+		return
+	}
+	f.wrote("call with side effects")
 	old := f.curHeap.clone()
 	defer f.restoreLocals(old, w)
 	var ks []string
@@ -232,10 +236,20 @@ func (f *frame) contractCall(callee *ssa.Function, fc *FuncContract, args []SV, 
 		f.recordCallThrow(key, pos)
 	}
 	// frame
+	pureCond := ""
+	if fc.PureIf != nil {
+		ctx := &evalCtx{f: f, pkg: pkg, bind: bind, heap: f.curHeap, what: "pure_if of " + key}
+		pureCond = e.define(e.fresh(base+"!pure"), "Bool", ctx.evalBoolText(fc.PureIf.Text))
+	}
+	f.calleePure = pureCond
 	if fc.HasModifies {
 		f.havocModifies(fc, callee, bind)
 	} else if !fc.Pure {
 		f.havocKeys(e.E.writeSet(callee))
+	}
+	f.calleePure = ""
+	if pureCond != "" {
+		f.curHeap = f.mergeHeaps([]string{pureCond, not(pureCond)}, []Heap{oldHeap, f.curHeap})
 	}
 	res := f.resultHavoc(base, resT)
 	nb := map[string]SV{}
